@@ -538,6 +538,11 @@ def _insertion_shape(cx, add, ps):
                         okkey = isinstance(b, ast.UnaryOp) and isinstance(b.op, ast.USub) and isinstance(b.operand, ast.Attribute) \
                             and b.operand.attr == 'priority' and isinstance(b.operand.value, ast.Name) and b.operand.value.id == v
                     other = None
+                    if isinstance(key, ast.Name):
+                        # key=_sort_key with _sort_key = attrgetter('...') bound at module level
+                        mv = add.module.assigns.get(key.id)
+                        if isinstance(mv, (ast.Call, ast.Lambda)):
+                            key = mv
                     if isinstance(key, ast.Call) and key.args and isinstance(key.args[0], ast.Constant) and isinstance(key.args[0].value, str) and \
                             (key.func.attr if isinstance(key.func, ast.Attribute) else getattr(key.func, 'id', '')) == 'attrgetter':
                         other = key.args[0].value
